@@ -167,6 +167,13 @@ pub fn cmd_text(c: &Cmd, file: &str, known: &[u32]) -> Option<String> {
             6 => format!(r#"open {{"files":["{}.doesnotexist"]}}"#, file),
             7 => format!(r#"open {{"files":["{}"],"collect":"bogus"}}"#, file),
             8 => format!(r#"open {{"files":["{}"],"plugins":"x"}}"#, file),
+            // well-formed variants with other inputs (written next to the trace by run_session)
+            10 => format!(r#"open {{"files":["{}","{}"],"sort":{},"collect":{}}}"#, file, file, sort, collect),
+            11 => format!(r#"open {{"files":["{}","{}"],"sort":{},"collect":{}}}"#, file.replace("trace.dlt", "trace2.dlt"), file, sort, collect),
+            12 => format!(r#"open {{"files":["{}"],"sort":{},"collect":{}}}"#, file.replace("trace.dlt", "logcat.txt"), sort, collect),
+            13 => format!(r#"open {{"files":["{}"],"sort":{},"collect":{}}}"#, file.replace("trace.dlt", "can.asc"), sort, collect),
+            14 => format!(r#"open {{"files":["{}","{}"],"sort":{},"collect":{}}}"#, file, file.replace("trace.dlt", "logcat.txt"), sort, collect),
+            15 => format!(r#"open {{"files":["{}"],"sort":{},"collect":{}}}"#, file.replace("trace.dlt", "generic.log"), sort, collect),
             _ => format!(r#"open {{"files":["{}"],"plugins":[{{"name":"FileTransfer"}},{{"name":"Rewrite","rewrites":[]}},7]}}"#, file),
         },
         Cmd::Close => "close".to_string(),
@@ -195,6 +202,14 @@ pub fn run_session(s: &Session, ctx: &mut Ctx) -> Result<Transcript, Violation> 
     std::fs::create_dir_all(&root).unwrap();
     let file = root.join("trace.dlt");
     std::fs::write(&file, to_bytes(&s.trace)).unwrap();
+    if s.cmds.iter().any(|c| matches!(c, Cmd::Open { variant, .. } if *variant >= 10)) {
+        // a second recording (the last third of the trace, recorded in parallel) and small text inputs
+        let t2: Vec<TMsg> = s.trace[s.trace.len() - s.trace.len() / 3..].to_vec();
+        std::fs::write(root.join("trace2.dlt"), to_bytes(&t2)).unwrap();
+        std::fs::write(root.join("logcat.txt"), "--------- beginning of main\n01-01 00:00:00.000  1234  5678 I Tag: text\n01-01 00:00:01.500  1234  5678 W Other: more text\n  12.500 1 2 E Tag: monotonic\n").unwrap();
+        std::fs::write(root.join("can.asc"), "date Wed Oct 19 10:15:25.000 am 2022\nbase hex  timestamps absolute\n// BusMapping: CAN 1 = Body\n   0.100000 1  2dc             Rx   d 8 00 01 02 03 04 05 06 07\n   0.200000 1  2dd             Tx   d 2 AA BB\n").unwrap();
+        std::fs::write(root.join("generic.log"), "[2024-01-01 00:00:00.000] [INF] [tag] first\n[2024-01-01 00:00:01.000] [ERR] [other] second\n").unwrap();
+    }
     let file_s = file.to_string_lossy().to_string();
     crate::lc::align_lc_ids();
     let out = sh::slot(Transcript::default());
